@@ -59,6 +59,11 @@ after a dissociating replica's SCF fails in a CIS batch the next step raises in 
 `all_forces` and the state-dipole arrays of `do_all_forces` are allocated with the default dtype, not the
 molecule's; `hop_log` is not stored in the checkpoint, so the final printed hop summary of a resumed run lists
 only the hops after the resume (no hop occurred in any affordable kill/resume run, so this is from code reading).
+In thermostatted runs with periodic COM removal the removed kinetic energy is given back by a uniform velocity
+scaling (deliberate, the Langevin bookkeeping relies on it): the total kinetic temperature stays on target (judged
+by C12) but equipartition between atoms is lost at stride 1 (H2O, 300 K: O 52 K, H 428 K) - C12 quantifies over
+thermostat parameters, not over COM-removal options, so this is recorded, not judged; a diatomic under
+('angular', n) removal can raise `Zero kinetic energy after removing COM momentum` at a turning point (loud).
 An audit of every published output against what the checks read (`tools/AUDIT_outputs.md`) produced the
 `fixed:` rows for `Electronic_Structure.charge`, `all_forces[:,0]`, the HDF5 `transition_density_matrices` and
 `mo/` streams and the hop-log step labels above; outputs still read by no check are listed there (XL_ESMD engine,
